@@ -378,7 +378,9 @@ func indentKeep(code string, tabs int) string {
 func replaceIdent(s, from, to string) string {
 	var sb strings.Builder
 	i := 0
-	isId := func(c byte) bool { return c == '_' || c >= '0' && c <= '9' || c >= 'a' && c <= 'z' || c >= 'A' && c <= 'Z' }
+	isId := func(c byte) bool {
+		return c == '_' || c >= '0' && c <= '9' || c >= 'a' && c <= 'z' || c >= 'A' && c <= 'Z'
+	}
 	for i < len(s) {
 		if strings.HasPrefix(s[i:], from) && (i == 0 || !isId(s[i-1])) && (i+len(from) >= len(s) || !isId(s[i+len(from)])) {
 			sb.WriteString(to)
